@@ -1,0 +1,80 @@
+//go:build verif
+
+package queue
+
+import (
+	"context"
+	"database/sql"
+	"sort"
+	"time"
+)
+
+// VerifSnapshot returns every stored envelope, including lease fields, without
+// triggering retention pruning or lease sweeps. Verification builds only.
+func (s *MemoryStore) VerifSnapshot() []Envelope {
+	s.mu.Lock()
+	defer s.mu.Unlock()
+	out := make([]Envelope, 0, len(s.items))
+	for _, env := range s.items {
+		if env == nil {
+			continue
+		}
+		cp := *env
+		cp.Payload = append([]byte(nil), env.Payload...)
+		cp.Headers = cloneStringMap(env.Headers)
+		cp.Trace = cloneStringMap(env.Trace)
+		out = append(out, cp)
+	}
+	sort.Slice(out, func(i, j int) bool { return out[i].ID < out[j].ID })
+	return out
+}
+
+// VerifSnapshot returns every stored row, including lease fields, without
+// triggering retention pruning or lease sweeps. Verification builds only.
+func (s *SQLiteStore) VerifSnapshot() ([]Envelope, error) {
+	rows, err := s.db.QueryContext(context.Background(), `
+SELECT id, route, target, state, received_at, attempt, next_run_at,
+  payload, headers_json, trace_json, schema_version, dead_reason, lease_id, lease_until
+FROM queue_items
+ORDER BY id ASC;`)
+	if err != nil {
+		return nil, err
+	}
+	defer rows.Close()
+	out := make([]Envelope, 0)
+	for rows.Next() {
+		var env Envelope
+		var state string
+		var receivedAtNanos, nextRunAtNanos int64
+		var headersJSON, traceJSON, deadReason, leaseID sql.NullString
+		var leaseUntil sql.NullInt64
+		if err := rows.Scan(&env.ID, &env.Route, &env.Target, &state, &receivedAtNanos, &env.Attempt,
+			&nextRunAtNanos, &env.Payload, &headersJSON, &traceJSON, &env.SchemaVersion, &deadReason,
+			&leaseID, &leaseUntil); err != nil {
+			return nil, err
+		}
+		env.State = State(state)
+		env.ReceivedAt = time.Unix(0, receivedAtNanos).UTC()
+		env.NextRunAt = time.Unix(0, nextRunAtNanos).UTC()
+		env.Headers = unmarshalStringMap(headersJSON)
+		env.Trace = unmarshalStringMap(traceJSON)
+		if deadReason.Valid {
+			env.DeadReason = deadReason.String
+		}
+		if leaseID.Valid {
+			env.LeaseID = leaseID.String
+		}
+		if leaseUntil.Valid {
+			env.LeaseUntil = time.Unix(0, leaseUntil.Int64).UTC()
+		}
+		out = append(out, env)
+	}
+	return out, rows.Err()
+}
+
+// VerifCounters returns the trigger-maintained (queued, leased) counters.
+func (s *SQLiteStore) VerifCounters() (int, int, error) {
+	var queued, leased int
+	err := s.db.QueryRowContext(context.Background(), `SELECT queued, leased FROM queue_counters WHERE id = 1;`).Scan(&queued, &leased)
+	return queued, leased, err
+}
